@@ -136,6 +136,10 @@ impl Prop for C05 {
         case.set("red", red);
         case.set("list", list.join(","));
         case.set("pop", pop);
+        if pop != "random" {
+            case.set("min_ops", 0);
+            case.set("min_cfg", 0);
+        }
         let (a, b, c, d) = (oscode_of("a"), oscode_of("b"), oscode_of("c"), oscode_of("d"));
         let grid = |r: &mut Rng| -> u32 {
             let g = *r.pick(&[0u64, 1, 1, 2, h.saturating_sub(2), h.saturating_sub(1), h, h + 1, h + 2, 3, 7]);
